@@ -91,7 +91,8 @@ def scramble(v, depth=0):
 
 def host_data():
     return {"l": [3, 1, 2], "ll": [[1, 2], [3], []], "d": {"a": 1, "b": [1, 2], "c": {"x": 1}}, "s": {1, 2, 3},
-            "ld": [{"a": 1, "b": 2}, {"a": 3, "b": 4}], "n": 2, "t": "ab", "e": [], "k": "a"}
+            "ld": [{"a": 1, "b": 2}, {"a": 3, "b": 4}], "n": 2, "t": "ab", "e": [], "k": "a",
+            "odd": {"__src": 1, "2nd-unit": 2, "": 3, "-x": 4, "ok": 5}}
 
 
 ARGS = ["$.l", "$.ll", "$.d", "$.s", "$.ld", "$.n", "$.t", "$.e", "$.k", "1", "0", "'a'", "$", "$ + 1", "$.a", "[$, $]",
@@ -140,10 +141,11 @@ def stmt_snapshot(stmt):
 
 
 POOL = [("$.l", [3, 1, 2]), ("$.ll", [[1, 2], [3], []]), ("$.d", {"a": 1, "b": [1, 2], "c": {"x": 1}}), ("$.s", {1, 2, 3}),
-        ("$.ld", [{"a": 1, "b": 2}, {"a": 3, "b": 4}]), ("$.n", 2), ("$.t", "ab"), ("$.e", []), ("$.k", "a"), ("1", 1), ("0", 0),
+        ("$.ld", [{"a": 1, "b": 2}, {"a": 3, "b": 4}]), ("$.odd", {"__src": 1, "2nd-unit": 2, "": 3, "-x": 4, "ok": 5}),
+        ("$hd", {"q": [1], "__p": 2, "9z": 3}), ("$.n", 2), ("$.t", "ab"), ("$.e", []), ("$.k", "a"), ("1", 1), ("0", 0),
         ("'a'", "a"), ("true", True), ("null", None), ("[9]", [9]), ("{z => 1}", {"z": 1}), ("-1", -1), ("[[7, 8]]", [[7, 8]])]
 LAMBDAS = ["$", "$ + 1", "$.a", "[$, $]", "$1 + $2", "$ > 1", "$ = 1", "[$, $ + 1]"]
-MUTABLE_ARGS = ("$.l", "$.ll", "$.d", "$.s", "$.ld", "$.e")
+MUTABLE_ARGS = ("$.l", "$.ll", "$.d", "$.s", "$.ld", "$.e", "$.odd", "$hd")
 SKIP = {"now", "random", "randomInt", "assert", "cycle", "repeat", "sequence", "generate", "generateMany", "range"}
 
 
@@ -243,7 +245,7 @@ def sweep(run, deep):
     root = yaql.create_context()
     parent = root.create_child_context()
     parent["hv"] = [1, 2, 3]
-    parent["hd"] = {"q": [1]}
+    parent["hd"] = {"q": [1], "__p": 2, "9z": 3}
     parent.register_function(lambda x: x, name="hostfn")
     host = parent.create_child_context()
     host["own"] = {"w": 1}
@@ -529,7 +531,68 @@ def same_document_histories(run):
                 applied.append(edits[step])
 
 
+def hidden_parameter_writers(run):
+    """Host functions that WRITE through each kind of injected parameter (context, __context__, yaql_interface):
+    whatever they bind lives in the per-call child context - it is gone after the call, never visible to a sibling
+    expression or a later statement, and the host's chain is unchanged."""
+    import yaql
+    from yaql.language import specs, yaqltypes
+
+    def set_ctx(context, name, value):
+        context[name] = value
+        return value
+
+    @specs.inject("__context__", yaqltypes.Context())
+    def set_dctx(__context__, name, value):
+        __context__[name] = value
+        return value
+
+    def set_iface(yaql_interface, name, value):
+        yaql_interface[name] = value
+        return value
+
+    @specs.parameter("body", yaqltypes.Lambda())
+    def set_and_run(context, name, value, body):
+        context[name] = value
+        return body()
+    for mode_opts in ({}, {"yaql.convertInputData": False}):
+        eng = yaql.YaqlFactory(allow_delegates=True).create(dict(mode_opts))
+        parent = yaql.create_context(delegates=True).create_child_context()
+        for f, nm in ((set_ctx, "setCtx"), (set_dctx, "setDctx"), (set_iface, "setIface"), (set_and_run, "setAndRun")):
+            parent.register_function(f, name=nm)
+        parent["pv"] = 1
+        host = parent.create_child_context()
+        host["hv"] = [1]
+        chain = [host, parent]
+        before = ctx_snapshot(chain)
+        for w in ("setCtx", "setDctx", "setIface"):
+            cases = [("%s(v, 3)" % w, 3), ("[%s(v, 3), $v]" % w, [3, None]), ("[%s(pv, 9), $pv]" % w, [9, 1]),
+                     ("%s(v, 3) + %s(w, 4)" % (w, w), 7), ("[1, 2].select(%s(v, $)).toList() + [$v]" % w, [1, 2, None]),
+                     ("let(x => 1) -> [%s(x, 5), $x]" % w, [5, 1]), ("%s(hv, [7]).len() + $hv.len()" % w, 2)]
+            for text, want in cases + [("setAndRun(v, 3, $v)", None)]:
+                try:
+                    got = eng(text).evaluate(data=host_data(), context=host)
+                except Exception as e:
+                    got = ("exc", type(e).__name__)
+                run.case(("hiddenwriter", text, bool(mode_opts)), nontrivial=True)
+                run.count("hidden_parameter_writer")
+                after = ctx_snapshot(chain)
+                if after != before or (want is not None and got != want) or ("$v" in host or "$v" in parent):
+                    run.fail("violation", "a value bound by a function through an injected context / yaql_interface parameter outlives the call "
+                                          "(leaks into the caller's scope or into the host's context chain)",
+                             {"expression": text, "options": mode_opts, "observed": repr(got)[:300], "required": repr(want),
+                              "host_chain_changed": after != before})
+                    return
+        # later statements on the same host chain see nothing of it
+        for text in ("$v", "$w", "[$v, $pv]"):
+            got = eng(text).evaluate(data=None, context=host)
+            if got not in (None, [None, 1]):
+                run.fail("violation", "a later statement sees a variable bound inside an earlier evaluation", {"expression": text, "observed": repr(got)})
+                return
+
+
 def oracle(run, deep):
+    hidden_parameter_writers(run)
     sweep(run, deep)
     sequences(run)
     handmade(run)
